@@ -49,8 +49,54 @@ def suite(wt):
     return sorted(s for s in stable if s not in passed), len(stable)
 
 
+def run_checks_on_repo(patch):
+    """apply the patch to /repo, run all quick checks with evidence redirected, undo; -> (fired, silent, errors, details)"""
+    rc, out = sh(["git", "-C", "/repo", "status", "--porcelain", "--untracked-files=no"])
+    if out.strip():
+        raise SystemExit("ABORT: /repo working tree is not clean")
+    evd = tempfile.mkdtemp(prefix="seedev_")
+    fired, silent, errors, details = [], [], [], {}
+    try:
+        rc, out = sh(["git", "-C", "/repo", "apply", "--exclude=SEED/*", patch])
+        if rc != 0:
+            raise SystemExit("ABORT: cannot apply to /repo: " + out)
+        procs = {}
+        for i in range(1, 21):
+            pid = "C%02d" % i
+            procs[pid] = subprocess.Popen([os.path.join(VERIF, "check"), pid, "--tier", "quick"], stdout=subprocess.PIPE, stderr=subprocess.STDOUT, text=True, env=dict(os.environ, BFSA_EVIDENCE_DIR=evd))
+        for pid, p in procs.items():
+            o, _ = p.communicate()
+            if p.returncode == 1 and "VIOLATION property=%s" % pid in o:
+                fired.append(pid)
+                details[pid] = [l.strip() for l in o.splitlines() if l.strip().startswith(("rule", "VIOLATION")) or "rule=" in l][:6]
+            elif p.returncode == 0:
+                silent.append(pid)
+            else:
+                errors.append(pid)
+                details[pid] = o.strip().splitlines()[-3:]
+    finally:
+        sh(["git", "-C", "/repo", "checkout", "--", "."])
+        shutil.rmtree(evd, ignore_errors=True)
+    rc, out = sh(["git", "-C", "/repo", "status", "--porcelain", "--untracked-files=no"])
+    assert not out.strip(), "/repo not restored"
+    return fired, silent, errors, details
+
+
+def recheck(name):
+    """re-run the 20 checks against a recorded change with today's rules and refresh meta.json (the confirmation record is kept)"""
+    dst = os.path.join(VERIF, "seeded", name)
+    meta = json.load(open(os.path.join(dst, "meta.json")))
+    fired, silent, errors, details = run_checks_on_repo(os.path.join(dst, "patch.diff"))
+    meta["checks_fired"], meta["checks_analysis_error"], meta["target_check_fired"], meta["reports"] = fired, errors, meta["property"] in fired, details
+    json.dump(meta, open(os.path.join(dst, "meta.json"), "w"), indent=1)
+    print("%s property=%s fired=%s errors=%s target_detected=%s" % (name, meta["property"], fired, errors, meta["property"] in fired))
+    return 0
+
+
 def main():
     args = [a for a in sys.argv[1:] if not a.startswith("--")]
+    if "--recheck" in sys.argv:
+        return recheck(args[0])
     name, prop, sd = args[:3]
     no_suite = "--no-suite" in sys.argv
     patch = os.path.join(sd, "patch.diff")
